@@ -7,13 +7,13 @@ open GluonModel
 namespace C07
 
 /-! gc -/
-open GluonModel.GcAccount in
+section Gc
+open GluonModel.GcAccount
 def parseMarks : List Sexp → List Bool
   | [] => []
   | .atom "1" :: r => true :: parseMarks r
   | _ :: r => false :: parseMarks r
 
-open GluonModel.GcAccount in
 def parseOp : Sexp → Option Op
   | .list [.atom "a", n] => n.toNat?.map Op.alloc
   | .list [.atom "i", n] => n.toNat?.map Op.allocIgnore
@@ -22,12 +22,10 @@ def parseOp : Sexp → Option Op
   | .list [.atom "l", n] => n.toNat?.map Op.setLimit
   | _ => none
 
-open GluonModel.GcAccount in
 def renderRes : Res → String
   | .ok => "ok"
   | .oom l n => s!"(oom {l} {n})"
 
-open GluonModel.GcAccount in
 def runGc (g : Gc) : List Sexp → List String → Option (Gc × List String)
   | [], acc => some (g, acc.reverse)
   | x :: xs, acc =>
@@ -37,8 +35,10 @@ def runGc (g : Gc) : List Sexp → List String → Option (Gc × List String)
       let (g', r) := step g op
       runGc g' xs (s!"({renderRes r} {g'.allocated})" :: acc)
 
+end Gc
 /-! verify -/
-open GluonModel.StackVerify in
+section Verify
+open GluonModel.StackVerify
 def parseInstrs : List Sexp → List Nat → Option (List Instr)
   | [], _ => some []
   | x :: xs, splits =>
@@ -69,7 +69,6 @@ def parseInstrs : List Sexp → List Nat → Option (List Instr)
 
 def natList (xs : List Sexp) : Option (List Nat) := xs.mapM Sexp.toNat?
 
-open GluonModel.StackVerify in
 def parseFn : Sexp → Option Fn
   | .list [.atom "fn", a, m, .list ins, .list sp] => do
     let a ← a.toNat?
@@ -80,7 +79,6 @@ def parseFn : Sexp → Option Fn
   | _ => none
 
 /-- Heights (per certificate) before every call / tail call / return instruction, in pc order. -/
-open GluonModel.StackVerify in
 def exitHeights (f : Fn) (hs : List (Option Nat)) : List String :=
   (List.range f.code.length).filterMap fun pc =>
     match f.code[pc]?, hs[pc]? with
@@ -89,7 +87,6 @@ def exitHeights (f : Fn) (hs : List (Option Nat)) : List String :=
     | some .ret, some (some h) => some s!"({pc} {h})"
     | _, _ => none
 
-open GluonModel.StackVerify in
 def handleVerify (f : Fn) : String :=
   match infer f with
   | none => "(rejected infer)"
@@ -103,8 +100,10 @@ def handleVerify (f : Fn) : String :=
       s!"(ok {peak} {declared} {if forward f then "fwd" else "back"} ({" ".intercalate (exitHeights f hs)}))"
     else "(rejected check)"
 
+end Verify
 /-! call stack -/
-open GluonModel.CallStack in
+section Calls
+open GluonModel.CallStack
 def parseTbl : List Sexp → Option Tbl
   | [] => some []
   | .list [a, m] :: r => do
@@ -114,12 +113,10 @@ def parseTbl : List Sexp → Option Tbl
     pure (⟨a, m⟩ :: t)
   | _ => none
 
-open GluonModel.CallStack in
 inductive Script where
   | ev (e : Ev)
   | rep (n : Nat) (body : List Script)
 
-open GluonModel.CallStack in
 partial def parseScript : Sexp → Option Script
   | .list [.atom "p", k] => k.toNat?.map fun k => .ev (.push k)
   | .list [.atom "q", k] => k.toNat?.map fun k => .ev (.pop k)
@@ -139,14 +136,12 @@ partial def parseScript : Sexp → Option Script
     pure (.rep n b)
   | _ => none
 
-open GluonModel.CallStack in
 structure Acc where
   st : St
   peakValues : Nat
   peakDepth : Nat
   steps : Nat
 
-open GluonModel.CallStack in
 mutual
 partial def runScript (tbl : Tbl) (limit : Nat) (a : Acc) : List Script → Except Err Acc
   | [] => .ok a
@@ -167,12 +162,12 @@ partial def runRep (tbl : Tbl) (limit : Nat) (a : Acc) : Nat → List Script →
     | .error e => .error e
 end
 
-open GluonModel.CallStack in
 def renderErr : Err → String
   | .stackOverflow => "overflow"
   | .stuck => "stuck"
   | .bound => "bound"
 
+end Calls
 end C07
 
 open C07 in
